@@ -304,6 +304,9 @@ class TradingEnv(gymnasium.Env):
                 "The current episode has ended. To start a new episode use "
                 "TradingEnv.reset()."
             )
+        # The clock of contracts is process-wide: take it back in case another
+        # environment has been stepped in the meanwhile.
+        AbstractContract.now = self._now
         self._queue_actions.appendleft(action)
         action = self._queue_actions.pop()
         self._process_latent_events()
